@@ -674,7 +674,7 @@ func (c *FnCtx) callFuncInner(env *Env, fn *types.Func, recv *Val, args []Val, x
 	if key == c.Fn.Key && c.inSpec == 0 {
 		// direct recursion: partial correctness is not enough for "never crashes" (unbounded
 		// recursion is a fatal stack overflow in Go); a measure must decrease
-		if c.noSafety && (ct == nil || ct.FnDecreases == nil) {
+		if (c.noSafety || (c.C != nil && c.C.NoTerm)) && (ct == nil || ct.FnDecreases == nil) {
 			// functional contract only (`nosafety`): termination of the recursion is not claimed
 		} else if ct == nil || ct.FnDecreases == nil {
 			c.oblige(env.st, "term", "recursion", "false", "recursive call without a decreases measure", false, x)
@@ -940,7 +940,9 @@ func (c *FnCtx) checkRequires(env *Env, fn *types.Func, ct *Contract, recv *Val,
 		if len(c.frames) > 1 {
 			lbl += "@" + shortKey(c.frame().fn.Key)
 		}
-		if !c.noSafety {
+		if !c.noSafety || (c.C != nil && c.C.CheckPre) {
+			// `nosafety` alone also skips (and merely assumes) the preconditions of callees;
+			// `checkpre` keeps them as obligations
 			c.oblige(env.st, "pre", lbl, g.T, rq.Src, rq.Try, x)
 		}
 		c.assume(env.st, g.T)
@@ -1358,6 +1360,37 @@ func (e *Engine) modOfAssignsClause(c *FnCtx, fi *FuncInfo, a ast.Expr, out map[
 				return
 			case "fresh":
 				return
+			}
+		}
+	}
+	// p.f with p the receiver or a parameter (a pointer to a struct): field f of that struct type
+	if se, ok := a.(*ast.SelectorExpr); ok && fi != nil && fi.Sig != nil {
+		if id, ok := unparen(se.X).(*ast.Ident); ok {
+			var pt types.Type
+			if r := fi.Sig.Recv(); r != nil && r.Name() == id.Name {
+				pt = r.Type()
+			}
+			for i := 0; pt == nil && i < fi.Sig.Params().Len(); i++ {
+				if fi.Sig.Params().At(i).Name() == id.Name {
+					pt = fi.Sig.Params().At(i).Type()
+				}
+			}
+			if pt != nil {
+				if p, ok := c.subst(pt).Underlying().(*types.Pointer); ok {
+					if _, stt, ok := c.structOf(p.Elem()); ok {
+						for i := 0; i < stt.NumFields(); i++ {
+							if stt.Field(i).Name() == se.Sel.Name {
+								if e.addrTaken[stt.Field(i).Origin()] {
+									// the field lives in flat memory (its address is taken somewhere)
+									e.addElemKeys(c, stt.Field(i).Type(), out)
+								} else {
+									out[c.fieldKey(p.Elem(), se.Sel.Name)] = stt.Field(i).Type()
+								}
+								return
+							}
+						}
+					}
+				}
 			}
 		}
 	}
